@@ -197,6 +197,48 @@ def run(case, overwrite):
     return r
 
 
+def cell_xml(c):
+    el = "cell" if c["list"] == "cells" else "cell2CaPools"
+    at = ' id="%s"' % c["id"]
+    if c["m"]["attr"] is not None:
+        at += ' morphology="%s"' % c["m"]["attr"]
+    if c["b"]["attr"] is not None:
+        at += ' biophysicalProperties="%s"' % c["b"]["attr"]
+    body = "<notes>t%d</notes>" % c["rest"]
+    if c["m"]["emb"] is not None:
+        body += obj_xml("m", c["m"]["emb"])
+    if c["b"]["emb"] is not None:
+        body += obj_xml("b", c["b"]["emb"])
+    return "<%s%s>%s</%s>" % (el, at, body, el)
+
+
+def run_parser(case, root):
+    """the same document as a file, read the way NeuroMLXMLParser.parse does it (include resolution, then the fix)"""
+    from neuroml.hdf5.DefaultNetworkHandler import DefaultNetworkHandler
+    from neuroml.hdf5.NeuroMLXMLParser import NeuroMLXMLParser
+
+    body = "".join('<include href="%s"/>' % f["href"] for f in case["incs"])
+    body += "".join(obj_xml("m", o) for o in case["morphs"]) + "".join(obj_xml("b", o) for o in case["bios"])
+    body += "".join(cell_xml(c) for c in case["cells"] if c["list"] == "cells")
+    body += "".join(cell_xml(c) for c in case["cells"] if c["list"] == "cells2")
+    with open(os.path.join(root, "main.nml"), "w") as fh:
+        fh.write('<neuroml %s id="main">%s</neuroml>' % (NS, body))
+    r = {"outcome": "ok", "output": [], "detail": ""}
+    try:
+        p = NeuroMLXMLParser(DefaultNetworkHandler())
+        p.parse("main.nml")
+        r["output"] = [cellobs(c) for c in all_cells(p.nml_doc)]
+    except KeyError as e:
+        r["outcome"] = "keyerror"
+        r["detail"] = str(e)
+    except SystemExit:
+        r["outcome"] = "exit"
+    except BaseException as e:
+        r["outcome"] = "other"
+        r["detail"] = ("%s: %s" % (type(e).__name__, e))[:300]
+    return r
+
+
 def main():
     req = json.load(sys.stdin)
     top = os.path.realpath(tempfile.mkdtemp(prefix="c17_"))
@@ -214,7 +256,10 @@ def main():
                     fh.write('<neuroml %s id="inc">%s</neuroml>' % (NS, body))
             os.chdir(root)
             try:
-                out.append({"true": run(case, True), "false": run(case, False)})
+                res = {"true": run(case, True), "false": run(case, False)}
+                if case.get("via_parser"):
+                    res["parser"] = run_parser(case, root)
+                out.append(res)
             finally:
                 os.chdir(home)
                 shutil.rmtree(root, ignore_errors=True)
